@@ -111,7 +111,7 @@ func RandomManifest(r *fw.Rand) Manifest {
 			v := r.Pick([]string{"1.0.0", "2.0.0-beta.1", "0.0.0", "1.2.3", "10.0.0", "3.0.0+meta", "1.99999999999999999999.0", "18446744073709551616.0.0", "1.0.0", "2.0.0", "not-a-version", "1.0", "v1.0.0", ""})
 			mv := MVersion{Source: manifestSources[r.Intn(len(manifestSources))]}
 			if r.Chance(1, 2) {
-				mv.Source += "//" + r.Pick([]string{"mod", "a/b", "mod", "x", "a/b/c", "..", "a/../b", ""})
+				mv.Source += "//" + r.Pick([]string{"mod", "a/b", "mod", "x", "a/b/c", "..", "a/../b", "", "%2e%2e/%2e%2e/x", "sub%2f..%2f..%2f..%2fx", "a%2F..%2F..%2Fb"})
 			}
 			if r.Chance(1, 16) {
 				mv.Source = manifestBadSources[r.Intn(len(manifestBadSources))]
